@@ -147,6 +147,42 @@ pub fn run(tier: Tier) -> ! {
             }
         });
     }
+    // threshold sizes (255/256/257/1025; thorough also 4097 and 65535..65537): long well-formed lines of every
+    // format (many tokens, one long token, many tags on one token / character, one long tag) and fixed scrambled
+    // sequences over the hostile alphabet without NUL (mostly rejected half-way: the failure path at scale)
+    {
+        let sizes: Vec<usize> = tier.pick(vec![255usize, 256, 257, 1025], vec![255, 256, 257, 1025, 4097, 65535, 65536, 65537]);
+        let mut xs: Vec<String> = vec![];
+        let hostile: Vec<char> = SIGMA.iter().copied().filter(|&c| c != '\0').collect();
+        for &n in &sizes {
+            xs.push("a".repeat(n));
+            xs.push("あ/t ".repeat(n).trim_end().to_string());
+            xs.push(format!("ab{}", "/t".repeat(n)));
+            xs.push(format!("ab{} c/u", "/t".repeat(n)));
+            xs.push(format!("a/{}", "t".repeat(n)));
+            xs.push("a-".repeat(n) + "a");
+            xs.push("a|あ/t ".repeat(n) + "a");
+            xs.push(format!("a{}|b", "/t".repeat(n)));
+            xs.push("a\\ ".repeat(n));
+            for salt in 0..3u64 {
+                xs.push((0..n).map(|i| hostile[(crate::gen::mix(i as u64 ^ salt << 33) % hostile.len() as u64) as usize]).collect());
+                // mostly letters, rare delimiters: long accepted prefixes before a rejection
+                xs.push((0..n).map(|i| { let h = crate::gen::mix(i as u64 ^ salt << 35); if h % 9 == 0 { hostile[(h / 9 % hostile.len() as u64) as usize] } else { 'a' } }).collect());
+            }
+        }
+        chk.set("totality_threshold_strings", json!(xs.len()));
+        strings += xs.len() as u64;
+        xs.par_iter().for_each(|x| {
+            for kind in 0..3 {
+                chk.eval(3);
+                chk.nontrivial(1);
+                for (k, what) in totality_case(&w, kind, x) {
+                    let what: String = what.chars().take(300).collect();
+                    chk.violation(k.clone(), what, json!({"mode": "totality", "kind": kind, "x": x, "sig": k}));
+                }
+            }
+        });
+    }
     chk.set("totality_strings", json!(strings));
     chk.set("totality_alphabet", json!("a あ space / \\ - | NUL"));
     chk.set("totality_max_len", json!(maxlen));
